@@ -244,6 +244,11 @@ CHECKS = {
     },
 }
 
+T_NT = (' | non-trivial = an execution whose derivation backtracks over consumed input, ends in an exception, or depends on environment answers '
+        '(hole / action / reader decisions); distinct = by (table, input, decisions, outcome), counted by hashing (capped at 4 million per shard)')
+for _pid in ('C02', 'C03', 'C04', 'C05', 'C06', 'C08', 'C09', 'C12', 'C13', 'C18'):
+    CHECKS[_pid]['rule'] += T_NT
+
 NOT_YET = {}
 HOOK_COMMITS = ['d382928']
 ENGINES = [
